@@ -5,6 +5,7 @@ SPEC = {
         "AM.Dedup.flushStep_fail_keeps_state", "AM.Dedup.cause_mono_tick", "AM.Dedup.failed_flush_keeps_obligation",
         "AM.Dedup.eligible_listed_or_recorded", "AM.Dedup.eligible_listed_within_bound", "AM.Dedup.latest_never_omits",
         "AM.Dedup.inv_everywhere", "AM.Dedup.logged_with_firing_was_sent",
+        "AM.Group.ginv_step", "AM.Group.ginv_run", "AM.Group.refused_iff_map_full", "AM.Group.count_le_limit",
         "AM.Route.match_nonempty", "AM.Route.every_selected_route_has_receiver",
     ],
     "engines": [
